@@ -27,7 +27,9 @@ def cases_for(tier, rng, structure=False):
     add("emptydirs", [srv.dnode(["d"], 1500000000)] + [srv.dnode(["d", "e%d" % i], 1500000001 + i) for i in range(5)]
         + [srv.dnode(["d", "e0", "inner"], 1500000100)])
     # files around and above the 4 GiB extent limit (sparse on disk)
-    for size in ([4 * GIB - 2048, 4 * GIB + 133] if not full else [4 * GIB - 2048, 4 * GIB - 1, 4 * GIB, 4 * GIB + 133, 2 * isotrees.P + 1, 9 * GIB]):
+    add("dirs150", isotrees.wide_tree(rng, 3, 150))     # the Joliet path table needs more sectors than the primary one
+    for size in ([4 * GIB - 2048, 4 * GIB + 133, 2 * isotrees.P] if not full else
+                 [4 * GIB - 2048, 4 * GIB - 1, 4 * GIB, 4 * GIB + 133, 2 * isotrees.P - 1, 2 * isotrees.P, 2 * isotrees.P + 1, 9 * GIB, 3 * isotrees.P]):
         add("big-%d" % size, isotrees.big_file_tree(size), nocanon=True)
     # PS3 mode
     add("ps3", isotrees.ps3_tree(rng), ps3=True, title=["BLES", "01234"])
